@@ -38,6 +38,7 @@ class World:
         self.fds: dict[int, str] = {}
         self.mtimes: dict[str, float] = {}
         self.mtime_granularity = 0.0
+        self.remote = None  # RemoteSched when this process is a forked worker
 
     def point(self, kind, detail=""):
         s = self.sched
@@ -54,6 +55,9 @@ class World:
     def set_mtime(self, base):
         """A file's modification time = simulated wall clock at the write, rounded down to the
         file system's timestamp granularity (knob: exact, 1 s, 2 s as on FAT)."""
+        if self.remote is not None:
+            self.remote.mtime("set", base)
+            return
         t = self.clock.time()
         g = self.mtime_granularity
         self.mtimes[base] = (t // g) * g if g else t
@@ -62,6 +66,8 @@ class World:
         """Simulated modification time of a file.  A file that was last written before this
         process image started (by an earlier session) gets a seeded age: it was modified in the
         current timestamp granule (a restart right after the previous run), seconds or a day ago."""
+        if self.remote is not None:
+            return self.remote.mtime("get", base, real)
         if self.clock is None:
             return real
         if base not in self.mtimes:
@@ -70,6 +76,15 @@ class World:
             g = self.mtime_granularity
             self.mtimes[base] = (t // g) * g if g else t
         return self.mtimes[base]
+
+    def proc_tag(self):
+        """Tag of the operating-system process in which a lock object is being created."""
+        s = self.sched
+        if s is not None and getattr(s, "remote_tag", None) is not None:
+            return s.remote_tag  # a forked worker process
+        if s is not None and s.in_task():
+            return ("group", s.current.group.gid)
+        return ("import",)
 
     def current_proc(self):
         """Identity of the simulated operating-system process that is running."""
@@ -123,50 +138,47 @@ def install_audit():
 
 
 # --------------------------------------------------------------------------- locks
+_lock_counter = [0]
+
+
 class SimLock:
-    """Non-recursive, owner-tracked lock with the interface of multiprocessing.Lock."""
+    """multiprocessing.Lock replacement: non-recursive, owner-tracked, and *stateless* - the
+    state (owner, waiters) lives in the scheduler, keyed by (process group, lock uid).
 
-    def __init__(self, name="anon"):
-        self.name = name
-        self.owner = None
+    uid = (process that created the object, creation counter).  A lock created at import time or
+    in a parent before it forks is inherited by its children and keeps its uid (shared); a lock
+    created by a forked child after the fork gets that child's tag: it is private to the child,
+    exactly like a semaphore allocated after fork."""
 
-    def acquire(self, block=True, timeout=None):
-        w = WORLD
-        s = w.sched
+    def __init__(self, name=None):
+        _lock_counter[0] += 1
+        self.uid = (WORLD.proc_tag(), _lock_counter[0])
+        self.name = name or f"lock{_lock_counter[0]}"
+        self._outside = None
+
+    def _key(self):
+        return self.uid
+
+    def acquire(self, block=True, timeout=None, blocking=None):
+        if blocking is not None:
+            block = blocking
+        s = WORLD.sched
         if s is None or not s.in_task():
-            if self.owner is not None:
+            if self._outside is not None:
                 raise HarnessError(f"lock {self.name} contended outside simulation")
-            self.owner = "outside"
+            self._outside = "outside"
             return True
-        s.point("lock.acquire", self.name)
-        cur = s.current
-        if self.owner is not None:
-            if not block:
-                return False
-            if self.owner is cur:
-                s.count("self_deadlock")
-            while self.owner is not None:
-                s.block(("lock", self.name, id(self)))
-        self.owner = cur
-        s.log.append((s.step, cur.name, "lock.acquired", self.name))
-        if s.on_point is not None:
-            s.on_point(s, cur, "lock.acquired", self.name)
-        return True
+        return s.lock_acquire(self._key(), self.name, block)
 
     def release(self):
-        w = WORLD
-        s = w.sched
+        s = WORLD.sched
         if s is None or not s.in_task():
-            self.owner = None
+            self._outside = None
             return
-        cur = s.current
-        if self.owner is None:
-            raise ValueError("semaphore or lock released too many times")
-        self.owner = None
-        for t in s.tasks:
-            if t.state == "blocked" and isinstance(t.blocked_on, tuple) and t.blocked_on[-1] == id(self):
-                t.state = "runnable"
-        s.point("lock.release", self.name)
+        s.lock_release(self._key(), self.name)
+
+    def locked(self):
+        return False
 
     def __enter__(self):
         self.acquire()
@@ -180,40 +192,77 @@ class SimLock:
         raise RuntimeError("Lock objects should only be shared between processes through inheritance")
 
 
-class GroupLock:
-    """Module-level lock name -> the lock of the simulated process group that is running.
-    (A new process creates new semaphores; fork inheritance shares them inside a group.)"""
+def sim_lock_factory(*a, **k):
+    return SimLock()
 
-    def __init__(self, name):
-        self.name = name
 
-    def _lock(self) -> SimLock:
-        g = WORLD.current_group()
-        if g is None:
-            raise HarnessError("lock used without a process group")
-        lk = g.locks.get(self.name)
-        if lk is None:
-            lk = g.locks[self.name] = SimLock(self.name)
-        return lk
+class SimThreadLock(SimLock):
+    """threading.Lock created by the code under test: shared by the threads of one process,
+    *copied* (independent) in forked children - its state is keyed by the process that uses it."""
 
-    def acquire(self, *a, **k):
-        return self._lock().acquire(*a, **k)
-
-    def release(self):
-        return self._lock().release()
-
-    def __enter__(self):
-        return self._lock().__enter__()
-
-    def __exit__(self, *a):
-        return self._lock().__exit__(*a)
+    def _key(self):
+        return ("thread", self.uid, WORLD.current_proc())
 
     def __reduce__(self):
-        raise RuntimeError("Lock objects should only be shared between processes through inheritance")
+        raise TypeError("cannot pickle '_thread.lock' object")
 
 
-def sim_lock_factory(*a, **k):
-    return SimLock("dyn")
+class SimThreadRLock(SimThreadLock):
+    def __init__(self, name=None):
+        super().__init__(name)
+        self._owners = {}
+
+    def acquire(self, block=True, timeout=None, blocking=None):
+        me = (WORLD.current_proc(), getattr(getattr(WORLD.sched, "current", None), "tid", None))
+        st = self._owners.get(me[0])
+        if st is not None and st[0] == me[1]:
+            st[1] += 1
+            return True
+        ok = super().acquire(block, timeout, blocking)
+        if ok:
+            self._owners[me[0]] = [me[1], 1]
+        return ok
+
+    def release(self):
+        p = WORLD.current_proc()
+        st = self._owners.get(p)
+        if st is None:
+            raise RuntimeError("cannot release un-acquired lock")
+        st[1] -= 1
+        if st[1] == 0:
+            del self._owners[p]
+            super().release()
+
+
+def install_threading_seam(package="panoptica"):
+    """threading.Lock / threading.RLock dispatch on the module that calls them: code of the
+    package under test gets simulated locks (blocking on them is a scheduler matter, never a real
+    wait), everything else - the standard library, numpy, this harness - gets the real thing."""
+    import _thread
+    import threading
+
+    real_lock, real_rlock = _thread.allocate_lock, threading.RLock
+
+    def _caller():
+        return sys._getframe(2).f_globals.get("__name__", "")
+
+    def Lock(*a, **k):
+        n = _caller()
+        if n == package or n.startswith(package + "."):
+            return SimThreadLock()
+        return real_lock(*a, **k)
+
+    def RLock(*a, **k):
+        n = _caller()
+        if n == package or n.startswith(package + "."):
+            return SimThreadRLock()
+        return real_rlock(*a, **k)
+
+    if getattr(threading.Lock, "__verif__", False):
+        return
+    Lock.__verif__ = True
+    threading.Lock = Lock
+    threading.RLock = RLock
 
 
 # --------------------------------------------------------------------------- files
